@@ -10,8 +10,9 @@ import sys
 
 pid, k, log = sys.argv[1], sys.argv[2], sys.argv[3]
 note = sys.argv[4] if len(sys.argv) > 4 else ""
-src = f"/tmp/seed/out/{pid}/{k}"
-dst = f"/verif/seeded/{pid}-{k}"
+root = os.environ.get("SEED_ROOT", "/tmp/seed/out")
+src = f"{root}/{pid}/{k}"
+dst = f"/verif/seeded/{pid}-{int(k) + int(os.environ.get('SEED_K_OFFSET', '0'))}"
 os.makedirs(dst, exist_ok=True)
 for f in ("patch.diff", "demo.py"):
     shutil.copy(os.path.join(src, f), os.path.join(dst, f))
